@@ -266,7 +266,7 @@ impl Dev {
     }
 }
 
-pub const GARBAGE: [&str; 5] = ["foo", "~1.y", "1.2.3.4", "1.2beta4", ">="];
+pub const GARBAGE: [&str; 7] = ["foo", "~1.y", "1.2.3.4", "1.2beta4", "x|y", "|", ">="];
 
 fn render_partial(p: &Partial, alt: usize, simple: usize, side: usize, devs: &[Dev]) -> String {
     let mut s = String::new();
